@@ -324,7 +324,7 @@ func runC01Box(c *mon.Ctx) {
 	}
 	cores := []core{{[]int{1, 2, 1, 3}, 5, 5}, {[]int{1, 1, 1}, 0, 5}}
 	if !c.Quick() {
-		cores = []core{{[]int{1, 2, 1, 3}, 5, 6}, {[]int{1, 1, 1}, 0, 7}, {[]int{2, 1, 1, 1, 3}, 7, 6}}
+		cores = []core{{[]int{1, 2, 1, 3}, 5, 6}, {[]int{1, 1, 1}, 0, 7}, {[]int{2, 1, 1, 1, 3}, 7, 5}}
 	}
 	coreCount := make([]int64, len(cores))
 	for ci, k := range cores {
@@ -340,7 +340,7 @@ func runC01Box(c *mon.Ctx) {
 		}
 	}
 	// Random histories.
-	n := c.N(30000, 2000000)
+	n := c.N(30000, 1000000)
 	const per = 2500
 	for from := 0; from < n; from += per {
 		from := from
